@@ -19,7 +19,7 @@ FUNCTIONS = ['functions:OP_MERKLEVAL', 'functions:OP_DUP', 'functions:OP_SHA256'
              'parsing:decompile_script']
 BOUNDS = {'quick': {'step': 'OP_MERKLEVAL from a symbolic state: root 32 symbolic bytes, supplied script 1..3 symbolic bytes, sibling item of length '
                             '0, 1, 32, 33 (symbolic), 0..2 items below, symbolic call budget', 'tree_shapes': 'every binary tree shape with 2..4 '
-                    'leaves, every leaf; leaf scripts = 2 symbolic bytes each (pairwise different)', 'builders': 'prioritized and balanced builders, '
+                    'leaves, every leaf; leaf scripts = 2 symbolic bytes each (pairwise different), plus one leaf of 255 / 256 / 257 bytes', 'builders': 'prioritized and balanced builders, '
                     '1..6 leaves, every leaf', 'pack': 'every shape with 2..4 leaves, leaf scripts `push x<symbolic byte>`', 'graft': 'a used 2-leaf tree grafted left / right / through make_script_tree_prioritized(leaves, tree), every leaf'},
           'thorough': {'step': 'as quick, script 1..4 bytes, 0..3 items below', 'tree_shapes': 'every shape with 2..6 leaves', 'builders': '1..12 leaves',
                        'pack': 'every shape with 2..5 leaves'}}
@@ -209,9 +209,12 @@ class LeafLogger:
         return False
 
 
-def _leaf_scripts(c, pkg, n, slen=2):
+def _leaf_scripts(c, pkg, n, slen=2, big=None):
     T = pkg.tools
     codes = [c.bytes(f'leaf{i}', slen) for i in range(n)]
+    if big:
+        # leaf 0 is `big` concrete bytes (its run is summarised; only its length matters: push encodings at 255 / 256 / 257)
+        codes[0] = b'\x01' * big          # concrete (were it ever executed outside its summarised evaluation, it only pushes)
     for i in range(n):
         for j in range(i):
             c.assume(sym_not(bytes_eq(codes[i], codes[j])) if not c.concrete else codes[i] != codes[j])
@@ -236,11 +239,11 @@ def _check_leaf_run(c, pkg, unlock, lock, codes, want_leaf, depth, tag):
     c.reach(tag)
 
 
-def h_tree(c, pkg, n, shape_idx, leaf):
+def h_tree(c, pkg, n, shape_idx, leaf, big=None):
     T = pkg.tools
     if not c.concrete:
         _setup()
-    codes, scripts = _leaf_scripts(c, pkg, n)
+    codes, scripts = _leaf_scripts(c, pkg, n, big=big)
     acc = [0]
     root = _build(T, shapes(n)[shape_idx], scripts, acc)
     leaves = acc[1:]
@@ -360,7 +363,11 @@ def _p_step(tier):
 
 def _p_tree(tier):
     top = 4 if tier == 'quick' else 6
-    return [{'n': n, 'shape_idx': s, 'leaf': l} for n in range(2, top + 1) for s in range(len(shapes(n))) for l in range(n)]
+    out = [{'n': n, 'shape_idx': s, 'leaf': l} for n in range(2, top + 1) for s in range(len(shapes(n))) for l in range(n)]
+    # leaf scripts whose length sits on the push-instruction boundaries (the proof pushes the script itself)
+    sizes = (255, 256, 257) if tier == 'quick' else (127, 128, 255, 256, 257, 1000)
+    out += [{'n': 3, 'shape_idx': 1, 'leaf': l, 'big': b} for b in sizes for l in (0, 2)]
+    return out
 
 
 def _p_builder(tier):
